@@ -92,13 +92,14 @@ def shard(binpath, seed, sh, n):
         if i % 3 == 0:
             # text-level variants around the document: each is judged on its own (one outcome over all channels)
             base = texts["plain"]
-            k = rng.randrange(17)
+            k = rng.randrange(19)
             tx, how = {
                 0: (base + "]", "trailing_bracket"), 1: (base + " x", "trailing_garbage"), 2: (base + base, "two_documents"),
                 3: (base + " \n\t\r\n", "trailing_whitespace"), 4: (base + ",", "trailing_comma"), 5: (base + "\x00", "trailing_nul"),
                 6: (" \n" + base, "leading_whitespace"), 7: ("\ufeff" + base, "leading_bom"), 8: (base[:max(1, len(base) - rng.randrange(1, 4))], "truncated"),
                 9: (base + "}", "trailing_brace"), 10: (base + " null", "trailing_value"), 11: (base + "//c", "trailing_comment"),
                 12: dup_member(base, d, False), 13: dup_member(base, d, True),
+                17: non_ascii_id(base, rng, 63), 18: non_ascii_id(base, rng, 62),
                 14: extra_number_member(base, d, rng, False), 15: extra_number_member(base, d, rng, True), 16: extra_number_member(base, d, rng, False),
             }[k]
             groups.append([len(cases)])
@@ -149,6 +150,18 @@ def dup_member(base, d, escaped):
         if ord(k[0]) > 0xFFFF:
             name = json.dumps(k)
     return (base[:-1] + "," + name + ":" + json.dumps(d[k], ensure_ascii=False) + "}", "duplicate_member" + ("_escaped" if escaped else ""))
+
+
+def non_ascii_id(base, rng, nhex):
+    """one 64-digit hexadecimal string of the document (a key id, a digest) replaced by a two-byte character followed by
+    63 digits (64 characters, 65 bytes) or by 62 digits (63 characters, 64 bytes)"""
+    import re
+    hs = re.findall(r'"([0-9a-f]{64})"', base)
+    if not hs:
+        return (base + " \n", "trailing_whitespace")
+    h = rng.choice(hs)
+    ch = rng.choice(["é", "ß", "\u00e9"])
+    return (base.replace('"' + h + '"', '"' + ch + h[:nhex] + '"', 1), f"non_ascii_64_{'chars' if nhex == 63 else 'bytes'}_id")
 
 
 def extra_number_member(base, d, rng, nested):
